@@ -332,6 +332,8 @@ struct Exec<'a> {
     base_answers: BTreeMap<u64, Answer>,
     base_stream_answers: BTreeMap<u64, Answer>,
     base_pages: (u32, bool),
+    /// the document information as the typed trailer shows it (`None` for an encrypted base: known finding K3)
+    base_info: Option<String>,
     base_touched: bool,
     saves_since_reload: u64,
     failed_save_before: bool,
@@ -646,6 +648,14 @@ impl<'a> Exec<'a> {
                 return Err((format!("after reload the page tree is not reachable as before ({})", self.flags()), format!("pages before {:?} after {}", self.base_pages, reloaded.num_pages())));
             }
         }
+        // the document information is never written by a history: every save stores it again, and
+        // what the trailer shows after a reload must be what it showed before
+        if let Some(before) = &self.base_info {
+            let after = format!("{:?}", reloaded.trailer.info_dict);
+            if *before != after {
+                return Err((format!("after reload the document information differs from the base file's ({})", self.flags()), format!("before {} after {}", before, after).chars().take(400).collect()));
+            }
+        }
         self.durable = bytes;
         self.durable_expect = self.expect.clone();
         self.durable_handles = self.handles.clone();
@@ -747,6 +757,7 @@ pub fn run_case(case: &Case, scratch: &str) -> Outcome {
     let mut base_answers = BTreeMap::new();
     let mut base_stream_answers = BTreeMap::new();
     let base_pages;
+    let base_info;
     {
         let fresh = match open_base(&case.base, false) {
             Ok(f) => f,
@@ -765,6 +776,7 @@ pub fn run_case(case: &Case, scratch: &str) -> Outcome {
             }
         }
         base_pages = (fresh.num_pages(), fresh.num_pages() > 0 && fresh.get_page(0).is_ok());
+        base_info = if case.base.inv.encrypted { None } else { Some(format!("{:?}", fresh.trailer.info_dict)) };
     }
     std::mem::swap(&mut out, &mut Outcome { violation: None, trace: 0, saves_ok: 0, saves_failed_expected: 0, env_faults: 0, reloads: 0, reads: 0, writes: 0, second_saves: 0, refused_updates: 0, typed_copies: 0 });
     let mut ex = Exec {
@@ -781,6 +793,7 @@ pub fn run_case(case: &Case, scratch: &str) -> Outcome {
         base_answers,
         base_stream_answers,
         base_pages,
+        base_info,
         base_touched: false,
         saves_since_reload: 0,
         failed_save_before: false,
